@@ -22,6 +22,24 @@ CHECKS = {
  "C08": ("SCHED", "model_checking", "4 (C08)",
          "All schedules up to the preemption bound of every scenario in both configurations; oracle: collector_stats() (active collectors, buffered sets, parked attachments, registered receivers) returns to its pre-execution value once all traces ended and all threads exited.",
          "stateless model checking: preemption-bounded DFS over schedules of the real code + state-introspection oracle"),
+ "C02": ("SEQ", "model_checking", "4 (C02)",
+         "Bounded-exhaustive enumeration of well-scoped programs (span trees, nested scopes, multi-parent spans, two lock-step threads) x every placement of a collector cycle at a queue-push boundary x both configurations, on the real code; oracle: trace id, parent id (through the delivered record of the model's parent), multiplicity per parent, id distinctness.",
+         "explicit enumeration of operation sequences x cycle placements against a reference model (stateless exploration of the real code)"),
+ "C05": ("SEQ", "model_checking", "4 (C05)",
+         "All generated programs mixing a sampled and an unsampled root (descendants through every propagation path, mixed parent sets in both orders, detached sets, attachments, a second thread) x cycle placements; oracle: no record outside the model's sampled items, every extracted context carries the right trace id / span / sampled flag.",
+         "explicit enumeration of operation sequences x cycle placements against a reference model (stateless exploration of the real code)"),
+ "C10": ("SEQ", "model_checking", "4 (C10)",
+         "All well-nested sequences of scope-opening and -closing operations up to the stated depth on one and two threads; after every operation the local context is observed and probed (child span + local event) and compared with the model's scope stack: frame condition, thread isolation, inertness without a scope.",
+         "explicit enumeration of operation sequences against a reference model (stateless exploration of the real code)"),
+ "C11": ("SEQ", "model_checking", "4 (C11)",
+         "All generated programs with from_span/current_local_parent extracted after every operation and remote child roots created from those contexts directly and through the traceparent codec, with boundary id values; oracle: context = (trace, delivered id of the named span, sampled), None exactly where the model has no trace, remote child delivered under that span.",
+         "explicit enumeration of operation sequences against a reference model (stateless exploration of the real code)"),
+ "C17": ("SEQ", "model_checking", "4 (C17)",
+         "All captured local-span forests up to the stated size (open or closed, with attachments) pushed to up to 3 parents in 2 traces and converted with to_span_records, x cycle placements x both configurations; oracle: copies equal field by field, to_span_records equal to the delivered copy up to a common time offset, open spans closed at collection.",
+         "explicit enumeration of operation sequences x cycle placements against a reference model (stateless exploration of the real code)"),
+ "C18": ("SEQ", "model_checking", "4 (C18)",
+         "All generated nestings up to the stated size with a busy-wait before every operation and harness-side clock brackets around every operation, x cycle placements; oracle: duration within [finish-start] brackets, begin time within the run window, child inside parent, siblings disjoint, events inside their span, elapsed() within brackets.",
+         "explicit enumeration of operation sequences x cycle placements with clock-bracket oracle (stateless exploration of the real code)"),
 }
 
 props = [json.loads(l) for l in open("properties.jsonl")]
